@@ -82,3 +82,34 @@ Theorem c05_code_add_tag : forall m rho len tl p q,
     rho' "tags->length" = len + 2 + tl.
 Proof. exact code_add_tag. Qed.
 Print Assumptions c05_code_add_tag.
+
+(* libwifi_create_tag: the object is zeroed, number and length are stored through the one-octet conversions the C code makes (a number
+   or a length beyond 255 is silently reduced modulo 256 - stated here as what the code does, the properties quantify up to 255), one
+   allocation of tag_length bytes, -ENOMEM (as a size_t) on NULL, else the body block is cleared and filled and 2 + tag_length returned *)
+Theorem c05_code_create_tag : forall m rho num tl q,
+  - 2 ^ 31 <= num < 2 ^ 31 -> 0 <= tl < 2 ^ 63 -> rho "ret:malloc" = q -> 0 <= q < 2 ^ 63 ->
+  let rho0 := upd (upd rho "tag_number" num) "tag_length" tl in
+  let pre := [("memset", [wrap u64 (rho "tagged_parameter"); 0; 10]); ("malloc", [tl])] in
+  if (q =? 0)%Z then observe (exec 40 m rho0 [] body_libwifi_create_tag) = Some (Some (2 ^ 64 - 12), pre)
+  else exists rho',
+    exec 40 m rho0 [] body_libwifi_create_tag =
+      Returned (Some (2 + tl)) rho'
+        (pre ++ [("memset", [q; 0; tl]); ("memcpy", [q; wrap u64 (rho "tag_data"); tl])]) /\
+    rho' "tagged_parameter->header.tag_len" = tl mod 256 /\ rho' "tagged_parameter->header.tag_num" = num mod 256 /\
+    rho' "tagged_parameter->body" = q.
+Proof. exact code_create_tag. Qed.
+Print Assumptions c05_code_create_tag.
+
+(* libwifi_quick_add_tag: c is what libwifi_create_tag answers (a size_t), r what libwifi_add_tag answers.  The answer of create_tag is
+   narrowed to int; not positive: it is returned and nothing else is called; otherwise add_tag's answer is returned AFTER the temporary
+   element has been released, whether add_tag succeeded or not *)
+Theorem c05_code_quick_add_tag : forall m rho c r,
+  rho "ret:libwifi_create_tag" = c -> 0 <= c < 2 ^ 64 -> rho "ret:libwifi_add_tag" = r -> - 2 ^ 31 <= r < 2 ^ 31 ->
+  let ci := wrap s32 c in
+  exists a1 a2 a3,
+  observe (exec 40 m rho [] body_libwifi_quick_add_tag) =
+    (if ci <=? 0 then Some (Some ci, [("libwifi_create_tag", a1)])
+     else Some (Some r, [("libwifi_create_tag", a1); ("libwifi_add_tag", a2); ("libwifi_free_tag", a3)])).
+Proof. exact code_quick_add_tag. Qed.
+Print Assumptions c05_code_quick_add_tag.
+
